@@ -124,14 +124,21 @@ func (i *Indexer) Notify(_ context.Context, blk *chain.ExecutedBlock) error {
 // cache.
 // assumes the write lock is held
 func (i *Indexer) insertBlockIntoCache(blk *chain.ExecutedBlock) {
-	if evictedBlk, ok := i.blockHeightToBlock[blk.Block.Hght-i.blockWindow]; ok {
-		// remove the block from the caches
-		delete(i.blockIDToHeight, evictedBlk.Block.GetID())
-		delete(i.blockHeightToBlock, evictedBlk.Block.GetHeight())
-
-		// remove the transactions from the cache.
-		for _, tx := range evictedBlk.Block.Txs {
-			delete(i.txCache, tx.GetID())
+	// Evict every block that falls out of the retention window of the new block,
+	// i.e. every height <= [height - window], not only the one at exactly
+	// [height - window]: heights are not necessarily consecutive (the indexer may
+	// have been enabled after a state sync, or restarted on an existing database
+	// after having been disabled for a while). All cached heights are within
+	// (lastHeight - window, lastHeight], so at most [window] heights are visited
+	// and exactly one when heights are consecutive.
+	if i.lastHeight != math.MaxUint64 && blk.Block.Hght >= i.blockWindow {
+		lastEvictedHeight := min(blk.Block.Hght-i.blockWindow, i.lastHeight)
+		height := uint64(0)
+		if i.lastHeight >= i.blockWindow {
+			height = i.lastHeight - i.blockWindow + 1
+		}
+		for ; height <= lastEvictedHeight; height++ {
+			i.evictBlockFromCache(height)
 		}
 	}
 
@@ -145,6 +152,24 @@ func (i *Indexer) insertBlockIntoCache(blk *chain.ExecutedBlock) {
 		}
 	}
 	i.lastHeight = blk.Block.Hght
+}
+
+// evictBlockFromCache removes the block at the given height, if any, and its
+// transactions from the cache.
+// assumes the write lock is held
+func (i *Indexer) evictBlockFromCache(height uint64) {
+	evictedBlk, ok := i.blockHeightToBlock[height]
+	if !ok {
+		return
+	}
+	// remove the block from the caches
+	delete(i.blockIDToHeight, evictedBlk.Block.GetID())
+	delete(i.blockHeightToBlock, height)
+
+	// remove the transactions from the cache.
+	for _, tx := range evictedBlk.Block.Txs {
+		delete(i.txCache, tx.GetID())
+	}
 }
 
 // storeBlock persist the given block to the database, and deletes a block
